@@ -192,7 +192,9 @@ MANIFEST = {
     "text": "Lean 4 theorems over a generic crash model of one command execution (ordered atomic mutations: published-object set, task "
             "writes, command record): the log after any cut is the old or the complete new one, state all-or-nothing and equal to the "
             "log's verdict, acknowledged never lost, object set and tasks never behind the log, rejected/no-op commands fully atomic, "
-            "re-submission converges under listener idempotence; the negation of full three-store atomicity is proved with a witness "
+            "re-submission converges under listener idempotence; for whole histories (any number of requests, each completed or cut anywhere, "
+            "crash or single failed write): log and reloaded state equal those of the fault-free run of exactly the requests whose record "
+            "was written, completed requests all survive (hist_log_eq_clean, hist_state_eq_clean, hist_acked_survive); the negation of full three-store atomicity is proved with a witness "
             "(known finding F-C08-1). Tied to the code by enumerating EVERY cut of every scenario operation on the real daemon code "
             "(fault hooks in both storage back-ends), checking the observed mutation order against the model's and evaluating the "
             "theorem predicates (loads, atomic, acked-not-lost, converged vs fault-free twin) on the implementation; file-system cuts of the "
